@@ -92,8 +92,11 @@ def check_bounds(ctx) -> None:
     inf_ = float("inf")
     problems = []
     cases = 0
-    for lb in (None, -2.0, 0.0, 2.0):
-        for ub in (None, -2.0, 0.0, 2.0):
+    pairs = [(lb, ub) for lb in (None, -2.0, 0.0, 2.0) for ub in (None, -2.0, 0.0, 2.0)]
+    # wide in absolute terms, narrow relative to its magnitude: still a range, not an equality
+    pairs += [(1e6, 1e6 + 5.0), (-1e6 - 3.0, -1e6), (1e6, 1e6)]
+    for lb, ub in pairs:
+        if True:
             if lb is not None and ub is not None and lb > ub:
                 continue
             cases += 1
@@ -117,6 +120,16 @@ def check_bounds(ctx) -> None:
                     return None
                 if isinstance(f, ast.Attribute) and f.attr == "get_linear_coefficients":
                     return Opaque("coefs")
+                if norm(f) in ("np.isclose", "numpy.isclose", "math.isclose", "isclose") and len(c.args) >= 2:
+                    x, y = ev.eval(c.args[0]), ev.eval(c.args[1])
+                    kw = {k.arg: ev.eval(k.value) for k in c.keywords}
+                    if abs(x) == inf_ or abs(y) == inf_:
+                        return x == y
+                    if norm(f).startswith("math") or norm(f) == "isclose":
+                        rt, at = kw.get("rel_tol", 1e-9), kw.get("abs_tol", 0.0)
+                        return abs(x - y) <= max(rt * max(abs(x), abs(y)), at)
+                    rt, at = kw.get("rtol", 1e-5), kw.get("atol", 1e-8)
+                    return abs(x - y) <= at + rt * abs(y)
                 return NotImplemented
 
             ev = Evaluator({"zero_tol": 1e-6}, on_attr=on_attr, on_call=on_call)
@@ -294,7 +307,90 @@ def check_matrix_handling(ctx) -> None:
         raise AnalysisError("C16: no reshape / forward-column selections found")
 
 
+def check_validate(ctx) -> None:
+    """HRSampler.validate evaluated on concrete small arrays (cobralint/ndmodel.py: values, shapes and numpy's
+    broadcasting rule) and compared with an independent feasibility check written here: per sample, 'v' when every
+    equality holds within the feasibility tolerance and every variable bound / inequality constraint within the bounds
+    tolerance, else the letters l / u / e for a violated lower side, upper side, equality. Both spaces: solver
+    variables (with two inequality constraints and right-hand sides of either sign) and reactions (metabolite
+    balances with a non-zero right-hand side)."""
+    from ..interp import Interp
+    from .. import ndmodel
+    from ..ndmodel import NA
+
+    prog = ctx.prog
+    fn = prog.func("cobra.sampling.hr_sampler", "HRSampler.validate")
+
+    class _S:
+        pass
+
+    class _Obj(_S):
+        def __init__(self, **kw):
+            self.__dict__.update(kw)
+
+    ftol, btol = 1e-6, 1e-6
+    # variable space: 3 variables, 2 equalities (b = -0.5 and 2), 2 inequality constraints
+    eq, b = [[1.0, -1.0, 0.0], [1.0, 0.0, 1.0]], [-0.5, 2.0]
+    ineq, ib = [[1.0, 1.0, 0.0], [0.0, 1.0, -1.0]], [[1.0, -3.0], [9.0, 8.0]]
+    vb = [[-10.0, -10.0, -5.0], [10.0, 10.0, 5.0]]
+    samples_v = [[1.0, 1.5, 1.0], [8.0, 8.5, -6.0], [1.0, 1.5, 0.0], [-9.0, -8.5, 11.0], [0.25, 0.75, 1.75], [3.0, 3.5, -1.0], [1.0, 1.5, 1.0 + 5e-7], [-2.0, -1.5, 4.0], [1.0, 1.5, 3.0]]
+    # reaction space: 2 reactions, 2 metabolites, balances S v = (1, -1)
+    S, bm = [[1.0, -1.0], [0.0, 1.0]], [1.0, -1.0]
+    rb = [(0.0, 10.0), (-5.0, 5.0)]
+    samples_r = [[0.0, -1.0], [0.0, 0.0], [-1.0, -1.0], [12.0, 11.0], [-5.0, -6.0], [0.0, -1.0 - 5e-7]]
+
+    def expected(rows, A, rhs, lo, hi, extra=None):
+        out = []
+        for x in rows:
+            e = max(abs(sum(a * v for a, v in zip(r, x)) - t) for r, t in zip(A, rhs)) > ftol
+            lows = [v - l for v, l in zip(x, lo)]
+            ups = [h - v for v, h in zip(x, hi)]
+            if extra is not None:
+                rows_, (elo, ehi) = extra
+                vals = [sum(a * v for a, v in zip(r, x)) for r in rows_]
+                lows += [v - l for v, l in zip(vals, elo)]
+                ups += [h - v for v, h in zip(vals, ehi)]
+            l, u = min(lows) <= -btol, min(ups) <= -btol
+            out.append(("v" if not (e or l or u) else "") + ("l" if l else "") + ("u" if u else "") + ("e" if e else ""))
+        return out
+
+    rxns = [_Obj(id=f"R{i}", bounds=bd, lower_bound=bd[0], upper_bound=bd[1]) for i, bd in enumerate(rb)]
+    mets = [_Obj(id=f"M{i}") for i in range(2)]
+    model = _Obj(reactions=rxns, variables=[_Obj(name=f"x{i}") for i in range(3)], metabolites=mets, constraints={f"M{i}": _Obj(lb=bm[i], ub=bm[i]) for i in range(2)})
+    problem = _Obj(equalities=NA(eq), b=NA(b), inequalities=NA(ineq), bounds=NA(ib), variable_bounds=NA(vb), homogeneous=False)
+    sampler = _Obj(model=model, problem=problem, feasibility_tol=ftol, bounds_tol=btol)
+    stubs = {k: (lambda f_: (lambda it_, ev, c, a, kw: f_(*a, **kw)))(f) for k, f in ndmodel.NUMPY.items()}
+    stubs["cobra.util.array.create_stoichiometric_matrix"] = lambda it_, ev, c, a, kw: NA(S)
+    stubs["cobra.util.create_stoichiometric_matrix"] = stubs["cobra.util.array.create_stoichiometric_matrix"]
+    problems = []
+    for space, rows, want in (("solver-variable space (2 equalities with right-hand sides -0.5 and 2, 2 inequality constraints)", samples_v, expected(samples_v, eq, b, vb[0], vb[1], (ineq, ib))),
+                              ("reaction space (balances with right-hand sides 1 and -1)", samples_r, expected(samples_r, S, bm, [x[0] for x in rb], [x[1] for x in rb]))):
+        it = Interp(prog, (_S, NA), [], stubs, globals_={"str": str})
+        try:
+            got = it.call(fn, [NA(rows)], {}, selfobj=sampler)
+        except EvalRaise as exc:
+            problems.append(f"validate() of {len(rows)} samples in {space} raises {exc.exc_type}")
+            continue
+        except Unknown as exc:
+            raise AnalysisError(f"C16.validate: HRSampler.validate cannot be evaluated: {exc}")
+        except ndmodel.Unsupported as exc:
+            raise AnalysisError(f"C16.validate: HRSampler.validate uses an array operation outside the array model: {exc}")
+        codes = got.tolist() if isinstance(got, NA) else got
+        if codes != want:
+            k = next((i for i, (g, w) in enumerate(zip(codes, want)) if g != w), 0) if isinstance(codes, list) and len(codes) == len(want) else None
+            if k is None:
+                problems.append(f"validate() in {space} returns {codes!r} for {len(rows)} samples")
+            else:
+                problems.append(f"validate() in {space} gives {codes[k]!r} for the sample {rows[k]}, an independent check gives {want[k]!r} (all: {codes} vs {want})")
+    if problems:
+        ctx.bad("C16.validate", fn, fn.node, problems[0] + (f" (+{len(problems) - 1} more)" if len(problems) > 1 else ""))
+    else:
+        ctx.ok("C16.validate", fn, "validate", f"{len(samples_v)} + {len(samples_r)} samples in both spaces get the codes of an independent feasibility check (evaluated on concrete arrays)")
+
+
 def run(ctx) -> None:
+    ctx.rule("C16.validate", "finite evaluation: validate() agrees with an independent feasibility check in both spaces", floor=1)
+    ctx.guard(check_validate, ctx)
     ctx.rule("C16.private", "T8: the sampler works on a private copy of the model", floor=1)
     ctx.rule("C16.map", "T5: index maps and column names come from the same iteration; flux = forward - reverse", floor=6)
     ctx.rule("C16.bounds", "finite domain: constraint_matrices maps only a missing bound to infinity", floor=2)
